@@ -944,7 +944,7 @@ def obligations(tier):
         obs.append(mk_stack(1, _nb((1, 3), (1, 3), (1, 2)), OPS_ALL, BASES, 4, "first", every=3))
         obs.append(mk_stack(2, _nb((1, 2), (1, 2), (2, 2)), None, ("x2", "io"), 4, None, oplists=[OPS_PRODUCERS, OPS_ALL], every=7))
         obs.append(mk_stack(3, _nb((2, 2)), None, ("x2",), 2, None, every=5,
-                            oplists=[("neg", "T", "dot:c", "addy:b0"), ("T", "addyT", "dot", "sumq", "newax", "twice"), ("neg", "dia", "twice", "addy", "T", "sumq:c")]))
+                            oplists=[("neg", "T", "dot:c", "addy:b0"), ("T", "addyT", "dot", "sumq", "newax", "twice"), ("neg", "dia", "twice", "addy", "T", "sumq:c", "newax:2", "outer")]))
         obs.append(mk_stack(2, _nb((1, 2), (2, 2), (2, 2)), None, ("iok",), 4, None, oplists=IOK_OPS[:2], every=3, tag=",io-keys"))
         obs.append(mk_annotated("two", M[:6], cfgs=(None, False)))
         obs.append(mk_annotated("chain", ("none", "retries", "res+aow", "foo")))
